@@ -118,6 +118,9 @@ class Harness(c01.Harness):
     def __init__(self):
         self.messages = dict(session_messages(full=True, holds=(90,)))
         self.messages['RR_LONG'] = wire.frame(wire.ROUTE_REFRESH, b'\x00\x01\x00\x01\x00')
+        # a refresh for a family that is not configured locally (the peer may have announced it) is a message received all the same
+        self.messages['RR_V6'] = wire.route_refresh(2, 1)
+        self.messages['RR_VPN_OLD'] = wire.route_refresh(1, 128, 0, 128)
         self.messages['NOTIF_SHORT'] = wire.frame(wire.NOTIFICATION, b'\x06')
         self.messages['UPD_SHORT'] = wire.frame(wire.UPDATE, b'\x00\x00')
         self.messages['OPEN_SHORT'] = wire.frame(wire.OPEN, b'\x04\x00')
